@@ -33,8 +33,13 @@ var (
 	stateIdle      = protocol.NewState(1, "Idle")
 	stateAcquiring = protocol.NewState(2, "Acquiring")
 	stateAcquired  = protocol.NewState(3, "Acquired")
-	stateBusy      = protocol.NewState(4, "Busy")
 	stateDone      = protocol.NewState(5, "Done")
+	// The specification has one busy state per request kind (StBusy NextTx,
+	// StBusy HasTx, StBusy GetSizes), so that a reply is only permitted in
+	// response to the request it answers
+	stateBusyNextTx   = protocol.NewState(4, "BusyNextTx")
+	stateBusyHasTx    = protocol.NewState(6, "BusyHasTx")
+	stateBusyGetSizes = protocol.NewState(7, "BusyGetSizes")
 )
 
 // LocalTxMonitor protocol state machine
@@ -74,29 +79,39 @@ var StateMap = protocol.StateMap{
 			},
 			{
 				MsgType:  MessageTypeHasTx,
-				NewState: stateBusy,
+				NewState: stateBusyHasTx,
 			},
 			{
 				MsgType:  MessageTypeNextTx,
-				NewState: stateBusy,
+				NewState: stateBusyNextTx,
 			},
 			{
 				MsgType:  MessageTypeGetSizes,
-				NewState: stateBusy,
+				NewState: stateBusyGetSizes,
 			},
 		},
 	},
-	stateBusy: protocol.StateMapEntry{
+	stateBusyNextTx: protocol.StateMapEntry{
+		Agency: protocol.AgencyServer,
+		Transitions: []protocol.StateTransition{
+			{
+				MsgType:  MessageTypeReplyNextTx,
+				NewState: stateAcquired,
+			},
+		},
+	},
+	stateBusyHasTx: protocol.StateMapEntry{
 		Agency: protocol.AgencyServer,
 		Transitions: []protocol.StateTransition{
 			{
 				MsgType:  MessageTypeReplyHasTx,
 				NewState: stateAcquired,
 			},
-			{
-				MsgType:  MessageTypeReplyNextTx,
-				NewState: stateAcquired,
-			},
+		},
+	},
+	stateBusyGetSizes: protocol.StateMapEntry{
+		Agency: protocol.AgencyServer,
+		Transitions: []protocol.StateTransition{
 			{
 				MsgType:  MessageTypeReplyGetSizes,
 				NewState: stateAcquired,
